@@ -516,7 +516,7 @@ func handleOne(rq wproto.Req, alone bool) (rp wproto.Rep) {
 	var mu sync.Mutex // massive mode calls back from several goroutines
 	visits := 0
 	var kept []*gtree.WalkerNode // a callback may keep the nodes it is handed and read them when the walk is over
-	var walk []string // callbacks may still arrive while a cancelled call is winding down: never touch rp from them
+	var walk []string            // callbacks may still arrive while a cancelled call is winding down: never touch rp from them
 	cb := func(wn *gtree.WalkerNode) error {
 		if stallCh != nil {
 			<-stallCh
